@@ -149,7 +149,8 @@ theorem untouched_silent (mark : T) (np : NP) (rel : Path) (l : Option Loc) (k :
 
 /-
 STATUS of `no_change` / `untouched_kept`: proved below (section "the full theorems") with the decidable predicates
-`stillN` (subtree in place and unchanged; `Pfst/Reconcile.lean`) and `keptN` / `touches` (`Pfst/ReconcileKept.lean`).
+`stillN` (subtree in place and unchanged), `keptN` and `touches` (all defined in `Pfst/Reconcile.lean`; proofs in
+`Pfst/ReconcileQuiet.lean`, `Pfst/ReconcileKept.lean`).
 `no_change` without the restriction of `stillN` to node-only lists is false of the code: `None` / `str` elements of list
 fields under an in-tree parent (`Global.names`, `arguments.kw_defaults`) are re-put on every reconcile
 (`no_change_false`, finding F8).
